@@ -3,6 +3,7 @@ package rules
 import (
 	"fmt"
 	"go/token"
+	"go/types"
 	"sort"
 	"strings"
 
@@ -212,4 +213,121 @@ func c08rangeFunnel(c *Ctx, pkg string) {
 			return true, "" // a non-nil error (conversion failure, errNumberRange)
 		})
 	}
+}
+
+// c08nullElements (R6b, round 5): "no input panics". A value taken out of a decoded document container — the element
+// of a map or slice obtained through reflect's Interface() — is nil for a JSON/YAML null. reflect.TypeOf(nil) is a nil
+// Type, so calling a method on reflect.TypeOf(elem) (…String(), …Kind()) panics unless elem was found non-nil on the
+// way there: a nil comparison or a successful type assertion on that very value dominates the call
+// (seed r5-C08-1: a "type mismatch" hint built from reflect.TypeOf(entry).String() after the assertion had FAILED).
+func c08nullElements(c *Ctx, pkg string) {
+	rule := "C08.R6"
+	var bad []string
+	sites := 0
+	fromInterface := func(v ssa.Value) bool {
+		seen := map[ssa.Value]bool{}
+		var rec func(v ssa.Value) bool
+		rec = func(v ssa.Value) bool {
+			if v == nil || seen[v] {
+				return false
+			}
+			seen[v] = true
+			switch x := v.(type) {
+			case *ssa.Call:
+				return calleeName(x.Common()) == "(reflect.Value).Interface"
+			case *ssa.Phi:
+				for _, e := range x.Edges {
+					if rec(e) {
+						return true
+					}
+				}
+			case *ssa.ChangeInterface:
+				return rec(x.X)
+			case *ssa.Lookup, *ssa.Index:
+				return true // element of a decoded map / slice
+			case *ssa.UnOp:
+				if _, ok := x.X.(*ssa.IndexAddr); ok {
+					return true
+				}
+			case *ssa.Extract:
+				if _, ok := x.Tuple.(*ssa.Next); ok {
+					return true
+				}
+			}
+			return false
+		}
+		return rec(v)
+	}
+	for _, f := range c.P.AllFuncs(pkg) {
+		for _, b := range f.Blocks {
+			for _, ins := range b.Instrs {
+				call, ok := ins.(*ssa.Call)
+				if !ok || calleeName(call.Common()) != "reflect.TypeOf" || len(call.Call.Args) != 1 {
+					continue
+				}
+				x := call.Call.Args[0]
+				if _, isIface := x.Type().Underlying().(*types.Interface); !isIface || !fromInterface(x) {
+					continue
+				}
+				// is the resulting Type dereferenced?
+				var derefs []ssa.Instruction
+				for _, r := range *call.Referrers() {
+					if ci, ok := r.(ssa.CallInstruction); ok && ci.Common().IsInvoke() && ci.Common().Value == ssa.Value(call) {
+						derefs = append(derefs, r)
+					}
+				}
+				if len(derefs) == 0 {
+					continue
+				}
+				sites++
+				// blocks in which x is known non-nil: successors of nil tests / successful assertions on x
+				var safe []*ssa.BasicBlock
+				for _, r := range *x.Referrers() {
+					switch u := r.(type) {
+					case *ssa.BinOp:
+						k, isK := u.Y.(*ssa.Const)
+						if !isK || k.Value != nil || u.X != x {
+							continue
+						}
+						for _, br := range *u.Referrers() {
+							if iff, ok := br.(*ssa.If); ok {
+								if u.Op == token.NEQ {
+									safe = append(safe, iff.Block().Succs[0])
+								} else if u.Op == token.EQL {
+									safe = append(safe, iff.Block().Succs[1])
+								}
+							}
+						}
+					case *ssa.TypeAssert:
+						if !u.CommaOk {
+							safe = append(safe, u.Block()) // a single-value assertion that did not panic
+							continue
+						}
+						for _, er := range *u.Referrers() {
+							if ex, ok := er.(*ssa.Extract); ok && ex.Index == 1 {
+								for _, br := range *ex.Referrers() {
+									if iff, ok := br.(*ssa.If); ok {
+										safe = append(safe, iff.Block().Succs[0])
+									}
+								}
+							}
+						}
+					}
+				}
+				for _, d := range derefs {
+					ok := false
+					for _, s := range safe {
+						if s.Dominates(d.Block()) && len(s.Preds) == 1 {
+							ok = true
+						}
+					}
+					if !ok {
+						bad = append(bad, fmt.Sprintf("%s: %s calls a method on reflect.TypeOf(elem) where elem comes out of a decoded container and was not found non-nil on the way: a null element makes it a nil Type and the call panics", c.P.Pos(d.Pos()), funcDisplay(f)))
+					}
+				}
+			}
+		}
+	}
+	sort.Strings(bad)
+	c.R.Check(len(bad) == 0, rule, pkg+"#null-elements", "a method is called on reflect.TypeOf(element of a decoded map/slice) only where the element was found non-nil (nil test or successful type assertion dominating the call)", "-", fmt.Sprintf("%d sites; %s", sites, strings.Join(bad, "; ")), bad, sites+1)
 }
